@@ -877,12 +877,12 @@ func runC03(c *core.Ctx) core.Meta {
 				hasAddr := strings.Contains(pv, ".Addr")
 				var okOff bool
 				if scale == 1 {
-					okOff = regexp.MustCompile(`\.Offset0\)?$|\.Offset0\)*\+`).MatchString(pv) || strings.Contains(pv, ".Offset0")
-					if regexp.MustCompile(`\.Offset[01]\*`).MatchString(pv) {
+					okOff = core.ProvMatch(regexp.MustCompile(`\.Offset0\)?$|\.Offset0\)*\+`), pv) || strings.Contains(pv, ".Offset0")
+					if core.ProvMatch(regexp.MustCompile(`\.Offset[01]\*`), pv) {
 						okOff = false
 					}
 				} else {
-					okOff = regexp.MustCompile(fmt.Sprintf(`\.Offset[01]\*%d\)`, scale)).MatchString(pv)
+					okOff = core.ProvMatch(regexp.MustCompile(fmt.Sprintf(`\.Offset[01]\*%d\)`, scale)), pv)
 				}
 				st9.Ob(hasAddr && okOff)
 				st9.Sample("%s.%s (%s): LDS[%s]", h.alu.typ, h.name, m[0], short(pv))
@@ -1227,10 +1227,11 @@ func runC03(c *core.Ctx) core.Meta {
 				if !isB {
 					return false, false
 				}
-				pv := prov.Of(bo.X)
-				k, isC := core.ConstInt(bo.Y)
+				bop, bx, by := cmpConstRight(bo)
+				pv := prov.Of(bx)
+				k, isC := core.ConstInt(by)
 				if !isC {
-					if ku, isU := core.ConstUint(bo.Y); isU {
+					if ku, isU := core.ConstUint(by); isU {
 						k, isC = int64(ku), true
 					}
 				}
@@ -1245,9 +1246,9 @@ func runC03(c *core.Ctx) core.Meta {
 					return false, false
 				}
 				switch {
-				case (bo.Op == token.NEQ || bo.Op == token.GTR) && k == 0, bo.Op == token.EQL && k == 1 && !vector:
+				case (bop == token.NEQ || bop == token.GTR) && k == 0, bop == token.EQL && k == 1 && !vector:
 					return true, true
-				case bo.Op == token.EQL && k == 0, bo.Op == token.NEQ && k == 1 && !vector:
+				case bop == token.EQL && k == 0, bop == token.NEQ && k == 1 && !vector:
 					return false, true
 				}
 				return false, false
@@ -1978,7 +1979,7 @@ func runC03(c *core.Ctx) core.Meta {
 					case "WriteOperand", "WriteOperandBytes":
 						st4.Instances++
 						pv := prov.Of(cc.Args[0])
-						ok := regexp.MustCompile(`\.Inst\(\)\.(Dst|SDst|Data)$`).MatchString(pv) || (strings.HasPrefix(pv, "param:") && !strings.Contains(pv, ".Inst()."))
+						ok := core.ProvMatch(regexp.MustCompile(`\.Inst\(\)\.(Dst|SDst|Data)$`), pv) || (strings.HasPrefix(pv, "param:") && !strings.Contains(pv, ".Inst()."))
 						st4.Ob(ok)
 						if !ok {
 							c.ReportAt("R03.4", fn, in.Pos(), "write-to:"+pv[strings.LastIndex(pv, ".")+1:], "a handler writes operand "+pv+", which is not a destination field of the instruction: a source register is modified")
